@@ -178,6 +178,39 @@ class Checker:
 			ctx.count(f'calls:{tname}/{aname}')
 			self._cmp(got2, exp, edt, k, prefix, seqs, f'{tname}/{aname}')
 
+		# --- one mutable buffer, refilled in place for every sequence (streaming contigs through a reused bytearray): the object is
+		# the same from call to call, its content is not
+		if max((len(s) for s in seqs), default=0) <= 100000:
+			if not hasattr(self, 'buf'):
+				self.buf = bytearray()
+			es = set()
+			acc_got = set()
+			okb = True
+			for s in seqs:
+				self.buf[:] = s
+				g3 = gc.calc_signature(ks, self.buf)
+				ctx.evals += 1
+				e3 = S.signature(k, prefix, [bytes(s)])
+				if not isinstance(g3, np.ndarray) or g3.tolist() != e3:
+					ctx.violation('sig-mismatch', f'bytearray refilled in place and searched again: got {getattr(g3, "tolist", lambda: g3)()[:8]} expected {e3[:8]} (the buffer held another sequence during the previous call)', self._w(k, prefix, [s], 'bytearray/reused-buffer'))
+					okb = False
+					break
+				if bytes(self.buf) != bytes(s):
+					ctx.violation('caller-buffer-modified', 'calc_signature modified the bytearray it was given', self._w(k, prefix, [s], 'bytearray/reused-buffer'))
+					break
+			ctx.count('calls:bytearray/reused-buffer')
+			# and once more through find_kmers directly, after an in-place change to lower case / reversal
+			if okb and seqs and seqs[0]:
+				self.buf[:] = seqs[0]
+				list(self.gk.find_kmers(ks, self.buf))
+				alt = bytes(seqs[0]).swapcase()[::-1] if self.rot % 2 else bytes(seqs[0]).lower()
+				self.buf[:] = alt
+				gm_ = sorted((bool(m.reverse), int(m.pos)) for m in self.gk.find_kmers(ks, self.buf))
+				em_ = sorted(S.expected_matches(k, prefix, alt))
+				ctx.evals += 1
+				if gm_ != em_:
+					ctx.violation('find-kmers-mismatch', f'find_kmers on a bytearray changed in place since the previous call: {gm_[:6]} expected {em_[:6]}', self._w(k, prefix, [alt], 'find_kmers/reused-buffer'))
+
 		# --- find_kmers level ---------------------------------------------------------------------
 		if check_find:
 			for s in seqs:
@@ -389,7 +422,7 @@ def _run_blocks(sh, ctx, ch):
 
 def finalize(merged, tier, seed, inconclusive):
 	c = merged['counters']
-	need = ['block_boundary_occurrences_planted', 'alphabet:ws', 'calls:bytes/default', 'calls:str/set', 'calls:Seq/array', 'calls:bytearray/default', 'find_kmers_calls',
+	need = ['block_boundary_occurrences_planted', 'alphabet:ws', 'calls:bytearray/reused-buffer', 'calls:bytes/default', 'calls:str/set', 'calls:Seq/array', 'calls:bytearray/default', 'find_kmers_calls',
 	        'cases_match_flush_with_end', 'cases_overlapping_matches', 'cases_with_dropped_nonACGT_kmer', 'cases_both_strands', 'failing_calls_raised']
 	for n in need:
 		if c.get(n, 0) == 0:
